@@ -119,18 +119,28 @@ func Metacall(t *Thread, obj Value, method string, args []Value, next Cont) (err
 // metamethod and returns the continuations that needs to be run to get the
 // results.
 func Continue(t *Thread, f Value, next Cont) (Cont, error) {
-	callable, ok := f.TryCallable()
-	if ok {
-		return callable.Continuation(t, next), nil
+	// A value that is not callable is called through its '__call' metamethod,
+	// which gets the value as first argument; that metamethod may itself be
+	// such a value, and so on.  The chain is followed iteratively and is
+	// bounded, as a chain of '__index' metamethods is.
+	var selves []Value
+	for i := 0; i < maxIndexChainLength; i++ {
+		callable, ok := f.TryCallable()
+		if ok {
+			cont := callable.Continuation(t, next)
+			for j := len(selves) - 1; j >= 0; j-- {
+				t.Push1(cont, selves[j])
+			}
+			return cont, nil
+		}
+		g := t.metaGetS(f, "__call")
+		if g.IsNil() {
+			return nil, fmt.Errorf("attempt to call a %s value", f.CustomTypeName())
+		}
+		selves = append(selves, f)
+		f = g
 	}
-	cont, err, ok := metacont(t, f, "__call", next)
-	if !ok {
-		return nil, fmt.Errorf("attempt to call a %s value", f.CustomTypeName())
-	}
-	if cont != nil {
-		t.Push1(cont, f)
-	}
-	return cont, err
+	return nil, errors.New("'__call' chain too long; possible loop")
 }
 
 // Call calls f with arguments args, pushing the results on next.  It may use
@@ -139,15 +149,20 @@ func Call(t *Thread, f Value, args []Value, next Cont) error {
 	if f.IsNil() {
 		return errors.New("attempt to call a nil value")
 	}
-	callable, ok := f.TryCallable()
-	if ok {
-		return t.call(callable, args, next)
+	// (see Continue for the chain of '__call' metamethods)
+	for i := 0; i < maxIndexChainLength; i++ {
+		callable, ok := f.TryCallable()
+		if ok {
+			return t.call(callable, args, next)
+		}
+		g := t.metaGetS(f, "__call")
+		if g.IsNil() {
+			return fmt.Errorf("attempt to call a %s value", f.CustomTypeName())
+		}
+		args = append([]Value{f}, args...)
+		f = g
 	}
-	err, ok := Metacall(t, f, "__call", append([]Value{f}, args...), next)
-	if ok {
-		return err
-	}
-	return fmt.Errorf("attempt to call a %s value", f.CustomTypeName())
+	return errors.New("'__call' chain too long; possible loop")
 }
 
 // Call1 is a convenience method that calls f with arguments args and returns
